@@ -14,11 +14,12 @@ from fractions import Fraction
 
 from harness import core
 from harness import mc_gen
+from harness import mc_fns
 from harness import mc_util as mu
 
-GEN = list(mc_gen.GEN)
-EXTRACT_FILES = ["X02"] + mc_gen.EXTRACT
-DRIVERS = ["x02"] + mc_gen.DRIVER
+GEN = list(mc_gen.GEN) + list(mc_fns.GEN)
+EXTRACT_FILES = ["X02"] + mc_gen.EXTRACT + mc_fns.EXTRACT
+DRIVERS = ["x02"] + mc_gen.DRIVER + mc_fns.DRIVER
 RULE = ("random image pairs 3..14 x 4..18 (mono / 2-3 bands with band selection; random, few-grey-level and "
         "nearly flat radiometry; right = shifted left + noise or independent), masks with valid/nodata/invalid "
         "cells (40% next to a border), intervals: one point, all negative, all positive, wider than the image, "
@@ -32,7 +33,12 @@ RULE = ("random image pairs 3..14 x 4..18 (mono / 2-3 bands with band selection;
         "for the real point_interval against the extracted generated one (non-trivial: non-empty range), 40 random "
         "grid pairs for get_min_max_from_grid, and every sample of the real axis of 6 (subpix, width) settings for the "
         "translated statements of the four loops executed on real objects (distinct by function, subpix, width, "
-        "disparity)")
+        "disparity). "
+        "PLUS the generated array functions of harness/mc_fns.py (stats gen_popcount_calls, gen_census_transform_calls, "
+        "gen_raster_calls, gen_masks_calls): ~500 uint32 words (all single bits, all low-bit runs, random) for "
+        "popcount32b; 40 random images w..w+5 x w..w+6 (random / 4 grey levels / flat / 10-bit) for census_transform "
+        "(window 3, 5) and 40 for the mean / std rasters (window 1..7, flat windows planted); the masks of up to 60 real "
+        "cv_masked runs (distinct by function and input)")
 ASSUMES = [
     "integer radiometry (|v| <= 1023 sad/census, <= 255 zncc, <= 60 ssd so that every float32 intermediate is "
     "exact); float32 rounding on real-valued radiometry is outside the model",
@@ -44,9 +50,9 @@ ASSUMES = [
     "exactly; the 1e-15 relative variance guard of compute_std_raster coincides with 'variance = 0' on "
     "integer radiometry",
 ]
-ASSUMES += mc_gen.ASSUMES
+ASSUMES += mc_gen.ASSUMES + mc_fns.ASSUMES
 TRUSTED = ["numpy slicing / as_strided / np.sum / nancumsum semantics as modelled in Model/MatchingCost.v "
-           "(validated by the correspondence on every run)"] + mc_gen.TRUSTED
+           "(validated by the correspondence on every run)"] + mc_gen.TRUSTED + mc_fns.TRUSTED
 
 
 def wire(case):
@@ -157,17 +163,21 @@ SUPPORTED = list(mu.MEASURES)
 def run(ctx):
     quick = ctx.tier == "quick"
     model = core.Model("x02")
-    ctx.gen_obligations = list(mc_gen.OBLIGATIONS)
+    ctx.gen_obligations = list(mc_gen.OBLIGATIONS) + list(mc_fns.OBLIGATIONS)
     if ctx.replay_case is not None and ctx.replay_case.get("kind") == "point_interval":
         mc_gen.replay_one(ctx, ctx.replay_case)
         return
     if ctx.replay_case is not None and ctx.replay_case.get("kind") in ("statements", "min_max"):
         mc_gen.run(ctx)        # statement-level cases are cheap: the whole generated-code correspondence is re-run
         return
+    if ctx.replay_case is not None and ctx.replay_case.get("kind") in ("popcount", "census_transform", "rasters", "masks"):
+        mc_fns.run(ctx)        # the generated-code correspondence of the array functions is cheap: re-run whole
+        return
     if ctx.replay_case is not None:
         cases = [ctx.replay_case]
     else:
         mc_gen.run(ctx)
+        mc_fns.run(ctx)
         cases = gen_cases(ctx, 260 if quick else 4000)
     for start in range(0, len(cases), 200):
         run_chunk(ctx, model, cases[start:start + 200])
